@@ -111,6 +111,8 @@ class Method(Variable):  # i.e. TypeBound procedure
         return None
 
     def resolve_link(self, obj_tree):
+        # Forget the target of a previous resolution: it may no longer exist
+        self.link_obj = None
         if self.link_name is None:
             return
         if self.parent is not None:
